@@ -75,7 +75,18 @@ def extra_acts():
     def comm_mix(r):
         r.community.set("C1")
         r.community.add("C2")
-    return [lambda r: r.set_metric_type("type-1"), lambda r: r.set_origin("igp"), lambda r: r.set_tag(7), lambda r: r.set_mpls_label(),
+    def lg_mix(r):
+        r.large_community.add("LG1")
+        r.large_community.remove("LG2")
+
+    def rt_mix(r):
+        r.extcommunity_rt.add("RT1")
+        r.extcommunity_rt.remove("RT2")
+
+    def soo_mix(r):
+        r.extcommunity_soo.add("SOO1")
+        r.extcommunity_soo.remove("SOO1")
+    return [lg_mix, rt_mix, soo_mix, lambda r: r.set_metric_type("type-1"), lambda r: r.set_origin("igp"), lambda r: r.set_tag(7), lambda r: r.set_mpls_label(),
             lambda r: r.set_resolution("x"), lambda r: r.set_rpki_valid_state("valid"), lambda r: r.next_hop.peer(), lambda r: r.next_hop.discard(),
             lambda r: r.next_hop.ipv4_addr("10.0.0.1"), lambda r: r.next_hop.ipv6_addr("2001:db8::1"), lambda r: r.next_hop.mapped_ipv4("10.0.0.1"),
             lambda r: r.as_path.expand_last_as(2), lambda r: r.as_path.delete(65003), as_mix, as_mix2, comm_mix,
@@ -115,6 +126,30 @@ def make_generators(vendor, routemaps, ents):
     return pol(genrun.STORAGE), [c(genrun.STORAGE) for c in lists], log
 
 
+def make_cumulus(routemaps, ents):
+    """thin subclass of the shipped CumulusPolicyGenerator (one FRR text stream): logs start/emit/error/end of every match / then call"""
+    from annet.rpl_generators import CumulusPolicyGenerator
+    cl, pl, asp, rd = ents
+    log = {"events": []}
+
+    def wrap(name):
+        def method(self, *a, **k):
+            log["events"].append("start")
+            try:
+                for x in getattr(CumulusPolicyGenerator, name)(self, *a, **k):
+                    log["events"].append("emit")
+                    yield x
+            except Exception:
+                log["events"].append("error")
+                raise
+            log["events"].append("end")
+        return method
+    cls = type("VfCumulus", (CumulusPolicyGenerator,), {
+        "get_policies": lambda s, d: routemaps.apply(d), "get_prefix_lists": lambda s, d: pl, "get_community_lists": lambda s, d: cl,
+        "get_as_path_filters": lambda s, d: asp, "_cumulus_policy_match": wrap("_cumulus_policy_match"), "_cumulus_policy_then": wrap("_cumulus_policy_then")})
+    return cls(), log
+
+
 def lex_out(text, unit=2):
     out = []
     for line in text.split("\n"):
@@ -133,7 +168,7 @@ def run(ctx):
     ctx.cov["rule"] = ("(vendor, route-map program): programs enumerated by TLC (1 statement, <=2 conditions x <=2 actions over catalogues) plus seeded "
                        "programs over the extended catalogues with 1-2 statements; non-trivial = distinct programs with at least one list reference or an "
                        "action the back-end refuses")
-    ctx.assumptions += ["vendors huawei and arista (PartialGenerators); cumulus (generate_cumulus_rpl) is not bound yet",
+    ctx.assumptions += ["vendors huawei and arista (PartialGenerators: all four clauses) and cumulus (generate_cumulus_rpl, one FRR stream: error-before-emit and references-defined clauses)",
                         "reference/definition syntax tables of spec/Rpl.tla", "one fixed set of named entities (communities, prefix lists, as-path, rd)"]
     r = ctx.mc("mc/MC_Rpl.tla", "mc/MC_Rpl.cfg", workers=2, timeout=1200)
     if r.violated:
@@ -145,7 +180,8 @@ def run(ctx):
         raise core.Machinery("catalogue sizes differ from MC_Rpl.cfg")
     ents = entities()
     recs = []
-    devs = {"huawei": genrun.Dev(E.hwview("Huawei CE6870", "VRP V200R001C00SPC700")), "arista": genrun.Dev(E.hwview("Arista DCS-7368", "EOS 4.29.9.1M"))}
+    devs = {"huawei": genrun.Dev(E.hwview("Huawei CE6870", "VRP V200R001C00SPC700")), "arista": genrun.Dev(E.hwview("Arista DCS-7368", "EOS 4.29.9.1M")),
+            "cumulus": genrun.Dev(E.hwview("PC", ""))}
 
     def observe(tag, vendor, stmts):
         """stmts: list of (cond builders, act builders, result)"""
@@ -158,6 +194,27 @@ def run(ctx):
                         a(rule)
                     getattr(rule, res)()
         routemaps(policy, name="POL")
+        if vendor == "cumulus":
+            gen, log = make_cumulus(routemaps, ents)
+            rec = {"id": "%s-%s-%d" % (tag, vendor, len(recs)), "vendor": vendor, "raised": False, "aclError": False, "listError": False,
+                   "policyLines": [], "defLines": [], "recLines": [], "textLines": []}
+            try:
+                rows = [(r,) if isinstance(r, str) else tuple(r) for r in gen.generate_cumulus_rpl(devs["cumulus"])]
+                for r in rows:
+                    words = " ".join(r).split()
+                    if r and r[0] == " ":
+                        rec["policyLines"].append(words)
+                    elif words and words[0] not in ("route-map", "!"):
+                        rec["defLines"].append(words)
+            except Exception as e:
+                rec["raised"] = True
+                rec["exc"] = "%s: %s" % (type(e).__name__, str(e)[:80])
+            rec["events"] = list(log["events"])
+            recs.append(rec)
+            ctx.count()
+            if rec["raised"] or any(w[0] == "match" for w in rec["policyLines"]):
+                ctx.nontrivial("cumulus" + json.dumps([rec["events"], rec["policyLines"]]))
+            return
         gen, listgens, log = make_generators(vendor, routemaps, ents)
         dev = devs[vendor]
         rec = {"id": "%s-%s-%d" % (tag, vendor, len(recs)), "vendor": vendor, "raised": False, "aclError": False, "listError": False,
@@ -201,20 +258,20 @@ def run(ctx):
     for p in sel:
         cs = [conds[i - 1] for i in p["c"]]
         as_ = [acts[i - 1] for i in p["a"]]
-        for vendor in ("huawei", "arista"):
+        for vendor in ("huawei", "arista", "cumulus"):
             observe("s2c", vendor, [(cs, as_, "allow")])
     # every ordered pair of conditions in two successive statements (list names are derived per use: dedupe / naming across statements)
     for ci in range(len(xconds)):
         for cj in range(len(xconds)):
             if ci == cj or (quick and (ci * 7 + cj) % 2):
                 continue
-            for vendor in ("huawei", "arista"):
+            for vendor in ("huawei", "arista", "cumulus"):
                 observe("pair", vendor, [([xconds[ci]], [], "allow"), ([xconds[cj]], [], "allow")])
     for _ in range(1500 if quick else 40000):
         stmts = []
         for _s in range(rnd.choice([1, 2, 2, 3])):
             stmts.append((rnd.sample(xconds, rnd.randint(0, 3)), rnd.sample(xacts, rnd.randint(0, 2)), rnd.choice(["allow", "deny", "next"])))
-        observe("rnd", rnd.choice(["huawei", "arista"]), stmts)
+        observe("rnd", rnd.choice(["huawei", "arista", "cumulus"]), stmts)
     ctx.sample({"vendor": recs[0]["vendor"], "events": recs[0]["events"], "output": recs[0]["textLines"]})
     slim = [{k: v for k, v in r.items() if k != "exc"} for r in recs]
     verd = ctx.judge("trace/Trace_Rpl.tla", "trace/Trace.cfg", slim, shards=16)
